@@ -6,6 +6,7 @@ import (
 	"go/build/constraint"
 	"go/parser"
 	"go/token"
+	"go/types"
 	"os"
 	"path/filepath"
 	"sort"
@@ -376,4 +377,117 @@ func (c *Ctx) ruleAsmVsGeneric(cfg string, box limbBox, asmName, genName string)
 func (c *Ctx) ruleAsmVsGenericMethod(cfg string, box limbBox) {
 	// the method wrapper (*Element).carryPropagate calls the assembly stub carryPropagate
 	c.ruleAsmVsGeneric(cfg, box, "field.carryPropagate", "field.(*Element).carryPropagateGeneric")
+}
+
+// ruleBuildVariants: every function of package field whose definition differs
+// between two analysed configurations is validated against its sibling: same
+// limb polynomials and same bounds for all Element outputs, on the same
+// abstract inputs at the invariant (integer parameters are enumerated over 1..2).
+func (c *Ctx) ruleBuildVariants(cfgA, cfgB string, box limbBox) {
+	pa, pb := c.Prog(cfgA), c.Prog(cfgB)
+	if pa == nil || pb == nil {
+		return
+	}
+	defFile := func(p *load.Program, name string) string {
+		f := p.ByName[name]
+		if f == nil {
+			return ""
+		}
+		if as := p.Asm[f]; as != nil {
+			return p.RelFile(as.Func.File)
+		}
+		pos := p.Rel(f.Pos())
+		if i := strings.LastIndex(pos, ":"); i > 0 {
+			return pos[:i]
+		}
+		return pos
+	}
+	var names []string
+	for n := range pa.ByName {
+		if strings.HasPrefix(n, "field.") && pb.ByName[n] != nil {
+			names = append(names, n)
+		}
+	}
+	sort.Strings(names)
+	for _, n := range names {
+		fa, fb := defFile(pa, n), defFile(pb, n)
+		if fa == fb || fa == "" || fb == "" {
+			continue
+		}
+		key := fmt.Sprintf("TV/%s[%s:%s≡%s:%s]", n, cfgA, fa, cfgB, fb)
+		o := report.Obligation{Rule: "TV", Key: key, Config: cfgA + "+" + cfgB, Pos: fa}
+		// integer parameters: enumerate small values
+		f := pa.ByName[n]
+		nInts := 0
+		for _, prm := range f.Params {
+			if b, ok := prm.Type().Underlying().(*types.Basic); ok && b.Info()&types.IsInteger != 0 && b.Kind() != types.Uint32 {
+				nInts++
+			}
+		}
+		vals := [][]int64{{}}
+		for i := 0; i < nInts; i++ {
+			var nv [][]int64
+			for _, v := range vals {
+				for k := int64(1); k <= 2; k++ {
+					nv = append(nv, append(append([]int64{}, v...), k))
+				}
+			}
+			vals = nv
+		}
+		o.OK = true
+		runs := 0
+		for _, iv := range vals {
+			c.limbPositional = true
+			c.limbInts = iv
+			ra, rb := c.limbPoly(cfgA, n, box), c.limbPoly(cfgB, n, box)
+			c.limbPositional = false
+			c.limbInts = nil
+			if ra == nil || rb == nil {
+				o.OK = false
+				o.Detail = "could not build abstract inputs"
+				break
+			}
+			if ra.out.Kind != absint.ExitReturn || rb.out.Kind != absint.ExitReturn {
+				o.OK = false
+				o.Detail = fmt.Sprintf("with integer arguments %v: %s%s%s%s", iv, ra.out.Undecided, ra.out.PanicMsg, rb.out.Undecided, rb.out.PanicMsg)
+				break
+			}
+			runs++
+			for _, r := range []*limbPolyRun{ra, rb} {
+				for _, ob := range r.in.Obls {
+					if !ob.OK && o.OK {
+						o.OK = false
+						o.Detail = fmt.Sprintf("with integer arguments %v a machine-operation obligation fails: %s at %s: %s", iv, ob.Kind, ob.Pos, ob.Detail)
+					}
+				}
+			}
+			for e := 0; e < len(ra.elems) && e < len(rb.elems) && o.OK; e++ {
+				_, la := elemValue(ra.d, ra.elems[e])
+				_, lb := elemValue(rb.d, rb.elems[e])
+				aa, _ := ra.elems[e].Obj.Val.(*absint.Agg)
+				ab, _ := rb.elems[e].Obj.Val.(*absint.Agg)
+				for i := 0; i < 5; i++ {
+					if la == nil || lb == nil || la[i].Key() != lb[i].Key() {
+						o.OK = false
+						o.Detail = fmt.Sprintf("with integer arguments %v the two definitions leave different values in limb %d of Element argument %d", iv, i, e)
+						break
+					}
+					_, ha, _ := valBounds(aa.Elems[i])
+					_, hb, _ := valBounds(ab.Elems[i])
+					if ha == nil || hb == nil || ha.Cmp(hb) != 0 {
+						o.OK = false
+						o.Detail = fmt.Sprintf("with integer arguments %v the two definitions have different bounds for limb %d of Element argument %d", iv, i, e)
+						break
+					}
+				}
+			}
+			if !o.OK {
+				break
+			}
+		}
+		if o.OK {
+			o.Detail = fmt.Sprintf("the definition selected under %s (%s) and the one selected under %s (%s) leave limb-for-limb identical polynomials and bounds in every Element argument (%d abstract runs each)", cfgA, fa, cfgB, fb, runs)
+		}
+		c.Set.Add(o)
+	}
 }
